@@ -145,23 +145,50 @@ Proof. intros. unfold invoke, stop_guard. simpl. destruct (st_err _); simpl; [re
 Lemma invoke_restart : forall s n f, invoke s {| e_next := n; e_kind := KRestart; e_file := f |} = [CRestart f].
 Proof. reflexivity. Qed.
 
-(* the calls produced by the entries of one kind of one file *)
-Definition kind_calls (s : state) (m : Z) (k : skind) (f : string) (sps : list spec) : list call :=
-  flat_map (invoke s) (filter (due_entry m) (map (fun sp => {| e_next := next sp (60 * m - 1); e_kind := k; e_file := f |}) sps)).
+(* ---------------------------------------------------------------------------------------- *)
+(* one entry per file and kind: the earliest Next is due iff some schedule of the kind fires    *)
+(* ---------------------------------------------------------------------------------------- *)
+Definition hit (m : Z) (sps : list spec) : bool := existsb (fun sp => matches sp m) sps.
+Definition opt_due (m : Z) (o : option Z) : bool := match o with Some n => n <=? m | None => false end.
+Definition opt_ge (m : Z) (o : option Z) : Prop := match o with Some a => m <= a | None => True end.
 
-Definition start_pass (s : state) (m : Z) (f : string) (sp : spec) : bool :=
-  due sp m && start_guard (status_of s f) (next_or_zero (next sp (60 * m - 1))).
-Definition stop_pass (s : state) (m : Z) (f : string) (sp : spec) : bool := due sp m && stop_guard (status_of s f).
-
-Lemma kind_calls_nil : forall s m k f, kind_calls s m k f [] = [].
-Proof. reflexivity. Qed.
-
-Lemma kind_calls_cons : forall s m k f sp sps,
-  kind_calls s m k f (sp :: sps) =
-  (if due sp m then invoke s {| e_next := next sp (60 * m - 1); e_kind := k; e_file := f |} else []) ++ kind_calls s m k f sps.
+Lemma earlier_spec : forall m sp acc, opt_ge m acc ->
+  opt_ge m (earlier acc (next sp (60 * m - 1))) /\
+  opt_due m (earlier acc (next sp (60 * m - 1))) = opt_due m acc || matches sp m.
 Proof.
-  intros. unfold kind_calls. cbn [map filter]. unfold due_entry at 1. cbn [e_next]. unfold due.
-  destruct (next sp (60 * m - 1)) as [n|]; [destruct (n <=? m)|]; cbn [flat_map app]; reflexivity.
+  intros m sp acc Hge. destruct (next sp (60 * m - 1)) as [n|] eqn:E; cbn [earlier].
+  - destruct (next_some _ _ _ E) as (Hn & _ & _). rewrite next_lo_tick in Hn.
+    assert (Hm : matches sp m = (n <=? m)) by (rewrite <- due_matches; unfold due; rewrite E; reflexivity).
+    rewrite Hm. destruct acc as [a|]; cbn [opt_ge opt_due] in *.
+    + destruct (n <? a) eqn:L; cbn [opt_ge opt_due]; [apply Z.ltb_lt in L | apply Z.ltb_ge in L]; (split; [lia|]);
+        destruct (n <=? m) eqn:N; destruct (a <=? m) eqn:A; try reflexivity;
+        try apply Z.leb_le in N; try apply Z.leb_gt in N; try apply Z.leb_le in A; try apply Z.leb_gt in A; lia.
+    + split; [lia | reflexivity].
+  - destruct (due_of_none sp m E) as [_ ->]. rewrite orb_false_r. split; [assumption | reflexivity].
+Qed.
+
+Lemma earliest_spec : forall m sps acc, opt_ge m acc ->
+  opt_ge m (earliest (60 * m - 1) sps acc) /\
+  opt_due m (earliest (60 * m - 1) sps acc) = opt_due m acc || hit m sps.
+Proof.
+  intros m. induction sps as [|sp sps IH]; intros acc Hge; cbn [earliest hit existsb].
+  - rewrite orb_false_r. split; [assumption | reflexivity].
+  - destruct (earlier_spec m sp acc Hge) as [Hge' Hd']. destruct (IH _ Hge') as [Hge2 Hd2].
+    split; [assumption|]. unfold hit in Hd2. rewrite Hd2, Hd', orb_assoc. reflexivity.
+Qed.
+
+(* the calls produced by the entry of one kind of one file *)
+Definition kind_calls (s : state) (m : Z) (k : skind) (f : string) (sps : list spec) : list call :=
+  flat_map (invoke s) (filter (due_entry m) (kind_entry (60 * m - 1) k f sps)).
+
+Lemma kind_calls_eq : forall s m k f sps,
+  kind_calls s m k f sps = if hit m sps then invoke s {| e_next := Some m; e_kind := k; e_file := f |} else [].
+Proof.
+  intros. unfold kind_calls, kind_entry. destruct (earliest_spec m sps None I) as [Hge Hd]. cbn [opt_due orb] in Hd.
+  destruct (earliest (60 * m - 1) sps None) as [n|]; cbn [opt_due opt_ge filter flat_map] in *.
+  - unfold due_entry. cbn [e_next]. rewrite Hd. destruct (hit m sps); [|reflexivity].
+    apply Z.leb_le in Hd. assert (n = m) by lia. subst. cbn [flat_map]. apply app_nil_r.
+  - rewrite <- Hd. reflexivity.
 Qed.
 
 Lemma count_single : forall c d, count c [d] = if call_eq_dec c d then 1%nat else 0%nat.
@@ -172,41 +199,36 @@ Qed.
 Lemma count_nil : forall c, count c [] = 0%nat.
 Proof. reflexivity. Qed.
 
+Definition b2n (b : bool) : nat := if b then 1%nat else 0%nat.
+
 Lemma kind_calls_start : forall s m f sps c,
   count c (kind_calls s m KStart f sps) =
-  if call_eq_dec c (CStart f) then List.length (filter (start_pass s m f) sps) else 0%nat.
+  if call_eq_dec c (CStart f) then b2n (hit m sps && start_guard (status_of s f) m) else 0%nat.
 Proof.
-  intros s m f sps c. induction sps as [|sp sps IH].
-  - rewrite kind_calls_nil. destruct (call_eq_dec c (CStart f)); reflexivity.
-  - rewrite kind_calls_cons, count_app, IH, invoke_start. cbn [filter]. unfold start_pass at 2.
-    destruct (due sp m); cbn [andb]; [|rewrite count_nil; reflexivity].
-    destruct (start_guard (status_of s f) (next_or_zero (next sp (60 * m - 1)))).
-    + rewrite count_single. destruct (call_eq_dec c (CStart f)); reflexivity.
-    + rewrite count_nil. reflexivity.
+  intros. rewrite kind_calls_eq. destruct (hit m sps); cbn [andb].
+  - rewrite invoke_start. cbn [next_or_zero]. destruct (start_guard (status_of s f) m); cbn [b2n].
+    + apply count_single.
+    + rewrite count_nil. destruct (call_eq_dec c (CStart f)); reflexivity.
+  - rewrite count_nil. destruct (call_eq_dec c (CStart f)); reflexivity.
 Qed.
 
 Lemma kind_calls_stop : forall s m f sps c,
   count c (kind_calls s m KStop f sps) =
-  if call_eq_dec c (CStop f) then List.length (filter (stop_pass s m f) sps) else 0%nat.
+  if call_eq_dec c (CStop f) then b2n (hit m sps && stop_guard (status_of s f)) else 0%nat.
 Proof.
-  intros s m f sps c. induction sps as [|sp sps IH].
-  - rewrite kind_calls_nil. destruct (call_eq_dec c (CStop f)); reflexivity.
-  - rewrite kind_calls_cons, count_app, IH, invoke_stop. cbn [filter]. unfold stop_pass at 2.
-    destruct (due sp m); cbn [andb]; [|rewrite count_nil; reflexivity].
-    destruct (stop_guard (status_of s f)).
-    + rewrite count_single. destruct (call_eq_dec c (CStop f)); reflexivity.
-    + rewrite count_nil. reflexivity.
+  intros. rewrite kind_calls_eq. destruct (hit m sps); cbn [andb].
+  - rewrite invoke_stop. destruct (stop_guard (status_of s f)); cbn [b2n].
+    + apply count_single.
+    + rewrite count_nil. destruct (call_eq_dec c (CStop f)); reflexivity.
+  - rewrite count_nil. destruct (call_eq_dec c (CStop f)); reflexivity.
 Qed.
 
 Lemma kind_calls_restart : forall s m f sps c,
-  count c (kind_calls s m KRestart f sps) =
-  if call_eq_dec c (CRestart f) then List.length (filter (fun sp => due sp m) sps) else 0%nat.
+  count c (kind_calls s m KRestart f sps) = if call_eq_dec c (CRestart f) then b2n (hit m sps) else 0%nat.
 Proof.
-  intros s m f sps c. induction sps as [|sp sps IH].
-  - rewrite kind_calls_nil. destruct (call_eq_dec c (CRestart f)); reflexivity.
-  - rewrite kind_calls_cons, count_app, IH, invoke_restart. cbn [filter].
-    destruct (due sp m); [|rewrite count_nil; reflexivity].
-    rewrite count_single. destruct (call_eq_dec c (CRestart f)); reflexivity.
+  intros. rewrite kind_calls_eq. destruct (hit m sps); cbn [b2n].
+  - rewrite invoke_restart. apply count_single.
+  - rewrite count_nil. destruct (call_eq_dec c (CRestart f)); reflexivity.
 Qed.
 
 (* the calls of one file *)
@@ -217,11 +239,12 @@ Lemma file_calls_split : forall s m f e,
   file_calls s m f e = kind_calls s m KStart f (starts e) ++ kind_calls s m KStop f (stops e) ++ kind_calls s m KRestart f (restarts e).
 Proof. intros. unfold file_calls, entries_of, kind_calls. rewrite !filter_app, !flat_map_app. reflexivity. Qed.
 
+(* number of calls c issued for file f by the tick of minute m: 0 or 1 *)
 Definition file_count (s : state) (m : Z) (f : string) (e : sched3) (c : call) : nat :=
   match c with
-  | CStart g => if String.eqb g f then List.length (filter (start_pass s m f) (starts e)) else 0
-  | CStop g => if String.eqb g f then List.length (filter (stop_pass s m f) (stops e)) else 0
-  | CRestart g => if String.eqb g f then List.length (filter (fun sp => due sp m) (restarts e)) else 0
+  | CStart g => if String.eqb g f then b2n (hit m (starts e) && start_guard (status_of s f) m) else 0
+  | CStop g => if String.eqb g f then b2n (hit m (stops e) && stop_guard (status_of s f)) else 0
+  | CRestart g => if String.eqb g f then b2n (hit m (restarts e)) else 0
   end%nat.
 
 Lemma dec_if_same : forall c {A} (a b : A), (if call_eq_dec c c then a else b) = a.
@@ -237,6 +260,9 @@ Proof.
     [apply String.eqb_eq in Eg; subst g; rewrite dec_if_same, !dec_if_diff by discriminate; lia
     |apply String.eqb_neq in Eg; rewrite !dec_if_diff by congruence; reflexivity]).
 Qed.
+
+Lemma file_count_le1 : forall s m f e c, (file_count s m f e c <= 1)%nat.
+Proof. intros. unfold file_count, b2n. destruct c; destruct (String.eqb _ _); try lia; destruct (_ && _) || destruct (hit _ _); lia. Qed.
 
 Lemma all_calls_files : forall s m,
   all_calls s m = flat_map (fun fe => if mem (fst fe) (susp s) then [] else file_calls s m (fst fe) (snd fe)) (tbl s).
